@@ -126,10 +126,15 @@ def run (st : St) (t : List String) : String × St :=
     (" ".intercalate [answerText h1.answer, answerText h2.answer, answerText h3.answer, answerText h4.answer] ++
       (if shared then " a=from-a+B:from-a+from-b+B:from-b b=from-a+B:from-a+from-b+B:from-b" else " a=from-a+B:from-a b=from-b+B:from-b") ++ " probe=ok",
      { st with reg := h4.registry })
+  | ["abandon", _, _] =>
+    -- a registration whose acknowledgement cannot be delivered leaves nothing behind that a later peer could observe:
+    -- the registry only records the topic and its pattern (`handleStream`), the router adopts and then drops the dead socket
+    ("probe=ok", { st with fresh := st.fresh + 1 })
   | ["stall", _] =>
     -- c17_other_topic_progress: a registration on another topic completes whatever topic A's channel holds
     -- (for a fresh peer, for a peer that queued up for A itself, and for the client whose publisher A blocks)
-    ("Ok probe=ok queued-peer=ok blocked-publisher=ok other-names=ok", { st with fresh := st.fresh + 44 })
+    -- (the second `Ok`: a registration on the stalled topic itself is acknowledged before it is queued: handleStream)
+    ("Ok Ok probe=ok queued-peer=ok blocked-publisher=ok other-names=ok queued-peer-later=ok", { st with fresh := st.fresh + 45 })
   | _ => ("bad-op", st)
 
 end Driver.Registry
